@@ -11,7 +11,7 @@ the model. Oracle on the implementation (hook: work meter counting instruction d
 program and budget, work <= operations charged, work <= budget + slack, a value is only returned when the counter is within
 the budget; capacity programs whose full value is known must return that value or an error, never anything else.
 """
-from lib.common import Run, hx, unhx
+from lib.common import go_child,  Run, hx, unhx
 from lib.proggen import ProgGen
 from lib.props.c01 import adversarial, vm_stream
 
@@ -205,6 +205,29 @@ def main(tier):
                 if f and f[0] == "ok" and (len(f) < 2 or f[1] != str(n + 1)):
                     run.violation(f"capacity:truncated-value:lazy-body/{kind}/evaluation-{i + 1}", rep)
                     break
+        # ---------- (B3) computed values the HOST serves as global variables (decoded afresh on every load): their dice are charged to the
+        #      evaluation that loads them, however the load is written
+        import json as _json
+        gdoc = hx(_json.dumps({"pool": {"t": 5, "v": {"expr": "3000d1"}}, "small": {"t": 5, "v": {"expr": "2d1"}}, "dd": {"t": 7, "v": {"dict": {}}}}))
+        READS = ["load('pool')", "pool", "loadRaw('pool').compute()", "[pool][0]", "{'k': pool}.k", "`{pool}`", "pool + 0", "dd[pool] = 1", "(pool)", "0 ? 0 : pool",
+                 "abs(pool)", "load('po' + 'ol')"]
+        gl, gm = [], []
+        for rd in READS:
+            for n in (5, 12):
+                gl.append(f"custom -,L30000 {1:032x} gjson:{gdoc} {hx(f'i=0; while i<{n} {{ {rd}; i=i+1 }}; i')}")
+                gm.append((rd, n))
+        gout = go_child(line_timeout=30).run(gl)
+        for (rd, n), o in zip(gm, gout):
+            run.evaluations += 1
+            run.count("host-global-computed.cases")
+            rep = {"host_global": "pool = computed value `3000d1`", "program": f"i=0; while i<{n} {{ {rd}; i=i+1 }}; i", "budget": 30000, "dice_rolled_if_it_completes": 3000 * n,
+                   "implementation": o[:300]}
+            if o.startswith("died") or o.startswith("panic"):
+                run.violation("host-global-computed:crash", rep)
+            elif n * 3000 > 30000 and o.startswith("ok "):
+                run.violation("uncharged-work:host-global-computed-value", rep)
+            else:
+                run.nontriv(("gcomp", rd, n))
         # ---------- (C) parse budget
         pl = []
         for n in [10, 100, 1000, 5000]:
